@@ -201,6 +201,9 @@ impl Router {
                     IpcSelectionResult::MessageReceived(id, message) => {
                         self.handlers.get_mut(&id).unwrap()(message)
                     },
+                    // The wakeup channel is only closed when the proxy is gone:
+                    // nobody can add routes or ask for a shutdown any more, so stop.
+                    IpcSelectionResult::ChannelClosed(id) if id == self.msg_wakeup_id => return,
                     IpcSelectionResult::ChannelClosed(id) => {
                         let _ = self.handlers.remove(&id).unwrap();
                     },
